@@ -315,6 +315,11 @@ def check_factory(ctx, cell, case, x):
 def regenerate(case):
     rng = np.random.RandomState(case["seed"])
     x = gen_signal(tuple(case["shape"]), case["family"], case["complex"], case["scale"], rng)
+    if case.get("mixed_scales") and x.ndim > 1 and x.shape[0] > 1:
+        # batch items of very different strength in ONE call (amplitude factors 1e-2 .. 1e4 relative to each other)
+        g = 10.0 ** rng.choice([-2.0, 0.0, 2.0, 4.0], size=x.shape[0])
+        g = g / g.max() * max(1.0, 1e4 / max(case["scale"], 1.0)) if case["scale"] * g.max() > 1e6 else g
+        x = x * g.reshape((-1,) + (1,) * (x.ndim - 1))
     for z in case.get("zero_items", []):
         if x.ndim > 1 and z < x.shape[0]:
             x[z] = 0
@@ -360,7 +365,7 @@ SCALE = st.sampled_from([1e-2, 0.1, 1.0, 7.0, 1e2, 1e4])
 
 
 def unit_generated(ctx, kind, n):
-    common = dict(family=st.sampled_from(FAMILIES), complex=st.booleans(), scale=SCALE, seed=st.integers(0, 10 ** 6))
+    common = dict(family=st.sampled_from(FAMILIES), complex=st.booleans(), scale=SCALE, seed=st.integers(0, 10 ** 6), mixed_scales=st.booleans())
     if kind in ("total", "average"):
         strat = st.fixed_dictionaries({**common, "constraint": st.just(kind), "target": TARGET, "shape": SHAPES.map(list), "zero_items": st.lists(st.integers(0, 5), max_size=2)})
     elif kind == "per_antenna":
